@@ -72,7 +72,7 @@ def sm3(
     """Initialise the optimiser's state."""
 
     def _init(param):
-      accumulators = [jnp.zeros([s]) for s in param.shape]
+      accumulators = [jnp.zeros([s], dtype=param.dtype) for s in param.shape]
       momentum = _quantize_momentum(jnp.zeros_like(param))
       return ParameterStats(accumulators, momentum)  # pytype: disable=wrong-arg-types  # numpy-scalars
 
